@@ -130,8 +130,10 @@ def lex_opcode_size(s: "Scanner") -> None:
 
         return lex_operand(s)
     else:
+        # taken before a newline is consumed, which moves the scanner to the next line.
+        size_position = s.get_position()
         s.next()
-        raise ScannerException("Invalid Size Specifier", s.get_position())
+        raise ScannerException("Invalid Size Specifier", size_position)
 
 
 def lex_opcode(s: "Scanner") -> None:
